@@ -451,26 +451,79 @@ Definition neighbors_spec (P : nat) (want : Z -> list Z) (nb : nb_out) : bool :=
                               (firstn (Z.to_nat (nth (Z.to_nat j) sizes 0)) (nth (Z.to_nat j) arr []))) used)
      (seq 0 P).
 
+(* a second execution device for the specification's sign tests and distances (cell containment, closed-triangle test,
+   barycentric ratios, nearest vertex): the same generic definitions run on rationals from which only common factors of
+   TWO are stripped after every operation.  The coordinates come from doubles, so every denominator is a power of two and
+   stripping keeps the numbers as small as full reduction would, without taking a gcd; the values are equal as rationals
+   to the QOps values. *)
+Fixpoint strip2_pos (n d : positive) : positive * positive :=
+  match n, d with
+  | xO n', xO d' => strip2_pos n' d'
+  | _, _ => (n, d)
+  end.
+Definition strip2 (q : Q) : Q :=
+  match Qnum q with
+  | Z0 => 0%Q
+  | Zpos n => let '(n', d') := strip2_pos n (Qden q) in Qmake (Zpos n') d'
+  | Zneg n => let '(n', d') := strip2_pos n (Qden q) in Qmake (Zneg n') d'
+  end.
+Definition QRaw : NumOps := {|
+  T := Q; add := fun a b => strip2 (Qplus a b); sub := fun a b => strip2 (Qminus a b);
+  mul := fun a b => strip2 (Qmult a b); div := fun a b => strip2 (Qdiv a b); opp := Qopp; ofZ := inject_Z;
+  leb := Qle_bool; ltb := Qltb; eqb := Qeq_bool; floorZ := floorZ QOps;
+  sqrtT := sqrtT QOps; cos2pi := cos2pi QOps; sin2pi := sin2pi QOps; lnT := lnT QOps |}.
+Definition raw_geom (cg : @cellgeom QOps) : @cellgeom QRaw :=
+  @Build_cellgeom QRaw (g_top cg) (g_left cg) (g_h cg) (g_w cg) (g_n1 cg).
+
 Definition rect_spec_weight (cg : @cellgeom QOps) (grid : list qpt) (s p : nat) : Q :=
-  @rect_weight QOps cg (nth s grid (0%Q, 0%Q)) p.
+  @rect_weight QRaw (raw_geom cg) (nth s grid (0%Q, 0%Q)) p.
+(* the same indicator for all cells at once: cell (r, c) contains the point iff row band r contains y and column band c
+   contains x (cell_contains is the conjunction of the two band tests), so the bands are tested once per point *)
+Definition row_in (cg : @cellgeom QRaw) (r : Z) (y : Q) : bool :=
+  ltb QRaw (sub QRaw (g_top cg) (mul QRaw (ofZ QRaw (r + 1)) (g_h cg))) y
+  && leb QRaw y (sub QRaw (g_top cg) (mul QRaw (ofZ QRaw r) (g_h cg))).
+Definition col_in (cg : @cellgeom QRaw) (c : Z) (x : Q) : bool :=
+  leb QRaw (add QRaw (g_left cg) (mul QRaw (ofZ QRaw c) (g_w cg))) x
+  && ltb QRaw x (add QRaw (g_left cg) (mul QRaw (ofZ QRaw (c + 1)) (g_w cg))).
+Definition rect_spec_row (cg : @cellgeom QOps) (P : nat) (q : qpt) : list Q :=
+  let rg := raw_geom cg in
+  let n1 := g_n1 cg in
+  let rows := filter (fun r => row_in rg r (fst q)) (rangeZ 0 (Z.of_nat P / n1)) in
+  let cols := filter (fun c => col_in rg c (snd q)) (rangeZ 0 n1) in
+  map (fun p => if existsb (Z.eqb (Z.of_nat p / n1)) rows && existsb (Z.eqb (Z.of_nat p mod n1)) cols then 1%Q else 0%Q)
+      (seq 0 P).
 
 (* the Delaunay weight specification on the oracle's triangulation: a point inside (closed) some simplex gets
    the signed barycentric coordinates in ANY simplex containing it (they agree on shared edges); a point in no
-   simplex gets the indicator of the first nearest vertex *)
-Definition del_spec_weight (points : list qpt) (simplices : list (list Z)) (grid : list qpt) (s p : nat) : Q :=
+   simplex gets the indicator of the first nearest vertex.  [del_spec_row] = the weights of sub-pixel s towards every
+   vertex (the containing simplex is looked up once per sub-pixel) *)
+Definition del_spec_row (points : list qpt) (simplices : list (list Z)) (grid : list qpt) (s : nat) : list Q :=
   let q := nth s grid (0%Q, 0%Q) in
   let vtx (row : list Z) k := nth (Z.to_nat (nthZ row k)) points (0%Q, 0%Q) in
-  match find (fun row => @in_triangle QOps (vtx row 0%nat) (vtx row 1%nat) (vtx row 2%nat) q) simplices with
+  match find (fun row => @in_triangle QRaw (vtx row 0%nat) (vtx row 1%nat) (vtx row 2%nat) q) simplices with
   | Some row =>
-      let '(b0, b1, b2) := @bary QOps (vtx row 0%nat) (vtx row 1%nat) (vtx row 2%nat) q in
-      Qred ((if nthZ row 0 =? Z.of_nat p then b0 else 0%Q) + (if nthZ row 1 =? Z.of_nat p then b1 else 0%Q)
-            + (if nthZ row 2 =? Z.of_nat p then b2 else 0%Q))
+      let '(b0, b1, b2) := @bary QRaw (vtx row 0%nat) (vtx row 1%nat) (vtx row 2%nat) q in
+      map (fun p =>
+        Qred ((if nthZ row 0 =? Z.of_nat p then b0 else 0%Q) + (if nthZ row 1 =? Z.of_nat p then b1 else 0%Q)
+              + (if nthZ row 2 =? Z.of_nat p then b2 else 0%Q))) (seq 0 (length points))
   | None =>
-      let d k := @sqdist QOps (nth k points (0%Q, 0%Q)) q in
-      if forallb (fun k => Qle_bool (d p) (d k)) (seq 0 (length points))
-         && forallb (fun k => negb (Qle_bool (d k) (d p))) (seq 0 p)
-      then 1%Q else 0%Q
+      (* the FIRST vertex at the smallest squared distance *)
+      let ds := map (fun v => @sqdist QRaw v q) points in
+      let d k := nth k ds 0%Q in
+      let dmin := fold_right (fun a b => if Qle_bool a b then a else b) (hd 0%Q ds) ds in
+      map (fun p =>
+        if Qle_bool (d p) dmin && forallb (fun k => negb (Qle_bool (d k) dmin)) (seq 0 p)
+        then 1%Q else 0%Q) (seq 0 (length points))
   end.
+Definition del_spec_weight (points : list qpt) (simplices : list (list Z)) (grid : list qpt) (s p : nat) : Q :=
+  nth p (del_spec_row points simplices grid s) 0%Q.
+
+(* weight specifications tabulated once per case (every clause is judged against the same table) *)
+Definition table_fn (tab : list (list Q)) (s p : nat) : Q := nth p (nth s tab []) 0%Q.
+Definition rect_spec_table (cg : @cellgeom QOps) (grid : list qpt) (P : nat) : list (list Q) :=
+  map (rect_spec_row cg P) grid.
+Definition del_spec_table (points : list qpt) (simplices : list (list Z)) (grid : list qpt) : list (list Q) :=
+  map (del_spec_row points simplices grid) (seq 0 (length grid)).
 
 (* what pix_sub_weights must look like for a weight specification w: per sub-pixel, the listed source pixels are
    distinct, in range, carry weight w s p, and every source pixel with non-zero w is listed *)
@@ -490,7 +543,7 @@ Definition psw_spec (tol : Q) (P S : nat) (w : nat -> nat -> Q) (psw : psw_out) 
    points in no simplex, simplices are non-degenerate triples of valid distinct vertices *)
 Definition oracle_ok (points : list qpt) (simplices : list (list Z)) (grid : list qpt) (simplex_for : list Z) : bool :=
   let vtx (row : list Z) k := nth (Z.to_nat (nthZ row k)) points (0%Q, 0%Q) in
-  let inside row q := @in_triangle QOps (vtx row 0%nat) (vtx row 1%nat) (vtx row 2%nat) q in
+  let inside row q := @in_triangle QRaw (vtx row 0%nat) (vtx row 1%nat) (vtx row 2%nat) q in
   forallb (fun row => Nat.eqb (length row) 3 && nodupb row
                       && forallb (fun v => (0 <=? v) && (v <? Z.of_nat (length points))) row
                       && negb (Qeq_bool (@cross QOps (vtx row 0%nat) (vtx row 1%nat) (vtx row 2%nat)) 0%Q)) simplices
@@ -543,7 +596,8 @@ Definition spec_ok (k : case) : bool :=
       let cg := @geom_of_extent QOps shape grid buffer in
       let gi := @geom_of_mesh QOps (@Build_rmesh QOps (fst shape) (snd shape) a b c d) in
       let P := Z.to_nat (fst shape * snd shape) in
-      let w := rect_spec_weight cg grid in
+      let tab := rect_spec_table cg grid P in
+      let w := table_fn tab in
       Nat.eqb (length grid) (total_sub subs)
       (* the implementation's mesh (pixel scales, origin) is the mesh of the extent *)
       && qclose tol (g_top gi) (g_top cg) && qclose tol (g_left gi) (g_left cg)
@@ -554,7 +608,8 @@ Definition spec_ok (k : case) : bool :=
       && neighbors_spec P (adj4 (fst shape) (snd shape)) nb
   | KDel tol m subs grid points simplices simplex_for indptr indices psw M uq nb =>
       let P := length points in
-      let w := del_spec_weight points simplices grid in
+      let tab := del_spec_table points simplices grid in
+      let w := table_fn tab in
       Nat.eqb (length grid) (total_sub subs)
       && oracle_ok points simplices grid simplex_for
       && psw_spec tol P (length grid) w psw
